@@ -183,6 +183,13 @@ def do_string(m, rng, spec, conv, n):
         if cap is None or len(want) <= cap:
             m.ctx.distinct((spec, "t", t))
             m.canonical(conv, spec, t, want=want if want.strip() == want and want else None, wire=esc)
+    # look-alikes of the entities OFX does NOT have (HTML's, numeric references, the semicolon left out) and a real no-break space:
+    # all of it is plain character data
+    for t in ("R&D &copy 2020", "if a &lt b", "&#167;1", "x &euro;5", "AT&T", "a\u00a0b", "&copy;", "&#x26;", "&Amp;", "&ampx;"):
+        if cap is None or len(t) <= cap:
+            m.ctx.count("foreign_entity_lookalikes")
+            m.canonical(conv, spec, t, want=R.decode_chardata(t))
+            m.inverse(conv, spec, t, wire=esc)
     if cap is not None:
         at = "x" * cap
         over = "y" * (cap + 1)
